@@ -149,8 +149,38 @@ def _apply(step, stores, ET, sink_factory):
     raise HarnessError("unknown op %r" % (op,))
 
 
+def _clone(stores):
+    """independent copies of the stores for one branch of the sequential search.  Where the store keeps its balances is its own business
+    (plain attributes, a private dataclass, a dict): every attribute is deep-copied, with the store itself mapped to its copy so that
+    back-references follow; what cannot be copied (events, real locks) stays shared.  The search verifies the independence it relies on."""
+    out = []
+    for s in stores:
+        c = copy.copy(s)
+        memo = {id(s): c}
+        for k, v in list(vars(c).items()):
+            try:
+                setattr(c, k, copy.deepcopy(v, memo))
+            except Exception:  # noqa: BLE001
+                pass
+        out.append(c)
+    return out
+
+
+class _NotIndependent(Exception):
+    pass
+
+
 def _sequential_outcomes(case, ATP_Store, ET):
-    """all outcomes reachable by sequential orders respecting program order (memoised search over visible state)"""
+    """all outcomes reachable by sequential orders respecting program order (memoised search over visible state).  Branches work on
+    copies of the stores; should a copy turn out to share state with its original (checked at every step), the search is redone
+    with every node rebuilt from fresh stores by replaying its path through the public API only."""
+    try:
+        return _sequential_search(case, ATP_Store, ET, replay=False)
+    except (_NotIndependent, TypeError, AttributeError):
+        return _sequential_search(case, ATP_Store, ET, replay=True)
+
+
+def _sequential_search(case, ATP_Store, ET, replay):
     plans = []
     for ops in case["threads"]:
         steps = []
@@ -158,13 +188,38 @@ def _sequential_outcomes(case, ATP_Store, ET):
             for s in _steps(op):
                 steps.append((k, s))
         plans.append(steps)
+    def advance(stores, t, pos, results):
+        """apply thread t's next step to `stores` (in place); returns (new positions, new results)"""
+        k, step = plans[t][pos[t]]
+        res = list(results)
+        npos = list(pos)
+        if step[0] == "deposit":
+            # only after a successful withdraw (recorded as the op's result)
+            if results[t][-1] is True:
+                _apply(step, stores, ET, lambda: ATP_Store(0, silent=True))
+            npos[t] += 1
+        else:
+            r = _apply(step, stores, ET, lambda: ATP_Store(0, silent=True))
+            res[t] = results[t] + (r,)
+            npos[t] += 1
+            if step[0] == "withdraw" and r is not True:
+                npos[t] += 1        # refused transfer: no deposit step
+        return tuple(npos), tuple(res)
+
+    def rebuild(path):
+        stores = _mk_stores(case, ATP_Store)
+        pos, results = tuple(0 for _ in plans), tuple(() for _ in plans)
+        for t in path:
+            pos, results = advance(stores, t, pos, results)
+        return stores
+
     start = _mk_stores(case, ATP_Store)
     init = (tuple(0 for _ in plans), _snap(start, ET), tuple(() for _ in plans), tuple(True for _ in plans))
-    frontier = {init: start}
+    frontier = {init: () if replay else start}
     outcomes = set()
     seen = set()
     while frontier:
-        key, stores = frontier.popitem()
+        key, node = frontier.popitem()
         if key in seen:
             continue
         seen.add(key)
@@ -175,28 +230,20 @@ def _sequential_outcomes(case, ATP_Store, ET):
         for t in range(len(plans)):
             if pos[t] == len(plans[t]):
                 continue
-            k, step = plans[t][pos[t]]
-            st2 = [copy.copy(s) for s in stores]
-            res = list(results)
-            npos = list(pos)
-            if step[0] == "deposit":
-                # only after a successful withdraw (recorded as the op's result)
-                if results[t][-1] is True:
-                    _apply(step, st2, ET, lambda: ATP_Store(0, silent=True))
-                npos[t] += 1
+            if replay:
+                st2 = rebuild(node)
+                if _snap(st2, ET) != _sn:
+                    raise HarnessError("sequential reference: replaying a path did not reproduce its state")
             else:
-                r = _apply(step, st2, ET, lambda: ATP_Store(0, silent=True))
-                if step[0] == "withdraw":
-                    res[t] = results[t] + (r,)
-                    npos[t] += 1
-                    if r is not True:
-                        npos[t] += 1        # refused transfer: no deposit step
-                else:
-                    res[t] = results[t] + (r,)
-                    npos[t] += 1
-            nkey = (tuple(npos), _snap(st2, ET), tuple(res), key[3])
+                st2 = _clone(node)
+                if _snap(st2, ET) != _sn:
+                    raise _NotIndependent()
+            npos, res = advance(st2, t, pos, results)
+            if not replay and _snap(node, ET) != _sn:
+                raise _NotIndependent()            # the step on the copy was visible in the original
+            nkey = (npos, _snap(st2, ET), res, key[3])
             if nkey not in seen:
-                frontier[nkey] = st2
+                frontier[nkey] = node + (t,) if replay else st2
     return outcomes
 
 
